@@ -10,6 +10,11 @@ PROPS = {
         "rule": "one execution = one complete interleaving (choice sequence) of the scenario; distinct = distinct observed outcome signatures (status, violations, event-log hash)",
         "assumptions": E1_ASSUME,
     },
+    "C02": {
+        "parts": [{"harness": "pools", "args": ["-prop", "C02"], "budget": {"quick": 60, "thorough": 1800}, "shards": {"quick": "ncpu", "thorough": "ncpu"}}],
+        "rule": "one execution = one complete interleaving of the ticking thread, the workers, the canceller and the pool's stop goroutine; distinct = distinct outcome signatures (status, violations, started/dropped counts)",
+        "assumptions": E1_ASSUME + ["interleavings inside progress.Stats are not explored here (its atomics are single steps without own scheduling points): that is C01's harness"],
+    },
     "C18": {
         "parts": [{"harness": "c18", "budget": {"quick": 30, "thorough": 300}, "shards": {"quick": 1, "thorough": 1}}],
         "rule": "one execution = one complete interleaving + timer order of the scenario (schedule list x function duration x Restart/Stop/cancel script); distinct = distinct outcome signatures (status, violations, ordered event log)",
@@ -24,6 +29,9 @@ E1_NOTE = ("Trusted base: the vrt shim semantics (sync, atomic, channels, contex
 LEVELS = {
     "C01": {"engine": "vrt", "technique": "stateless model checking of the real code: exhaustive enumeration of thread interleavings up to a preemption bound (happens-before memo completes small scenarios without a bound)",
             "text": "Every interleaving (up to the stated deviation bound, unbounded for the small scenarios) of recorder threads, progress snapshots and the final totals is executed on the real progress.Stats / run.Result / metrics code and the final counts are compared with ground truth; this is the level at which a lost update between two atomics is decidable, which no test run can force.",
+            "note": E1_NOTE},
+    "C02": {"engine": "vrt", "technique": "stateless model checking of the real worker pool under a controlled scheduler: all interleavings up to a preemption bound (free switches at blocking points) plus delay-bounded exploration for more workers, against a counter reference model",
+            "text": "The real PoolManager/TriggerPool/ActiveScenario are driven by a scripted ticking thread (tick sizes, quiescent or back-to-back ticks, gated bodies, cancel after/at/racing the last tick, max-iterations); every interleaving within the bound is executed and conservation (started + dropped = requested, nothing pending for ever, nothing both), exactness at quiescent ticks against a counter model and silence of the limit path are checked on each.",
             "note": E1_NOTE},
     "C18": {"engine": "vrt", "technique": "stateless model checking of the real raterun.Runner under a controlled scheduler with virtual time: all interleavings, select choices and same-instant timer orders up to a deviation bound",
             "text": "The real Runner runs in virtual time against scripted Restart/Stop/cancel sequences; every interleaving of the runner goroutine with the driver, every select choice among ready cases and every order of same-instant timers is executed (deviation bound per scenario in the evidence) and the ordered event log is checked: rate per schedule activation, argument, nothing executing or invoked after Stop returned, no thread or timer left.",
